@@ -119,6 +119,18 @@ impl MReg {
             MReg::C3(g) => g.intact(), MReg::C4(g) => g.intact(), MReg::C8(g) => g.intact(),
         }
     }
+    // Clone::clone_from between two registers of the same capacity
+    fn clone_from_reg(&mut self, src: &MReg) {
+        match (self, src) {
+            (MReg::C0(d), MReg::C0(s)) => counted(|| d.v.clone_from(&s.v)),
+            (MReg::C1(d), MReg::C1(s)) => counted(|| d.v.clone_from(&s.v)),
+            (MReg::C2(d), MReg::C2(s)) => counted(|| d.v.clone_from(&s.v)),
+            (MReg::C3(d), MReg::C3(s)) => counted(|| d.v.clone_from(&s.v)),
+            (MReg::C4(d), MReg::C4(s)) => counted(|| d.v.clone_from(&s.v)),
+            (MReg::C8(d), MReg::C8(s)) => counted(|| d.v.clone_from(&s.v)),
+            _ => unreachable!(),
+        }
+    }
     fn clone_reg(&self) -> MReg {
         match self {
             MReg::C0(g) => MReg::C0(Guarded::new(counted(|| g.v.clone()))),
@@ -131,6 +143,17 @@ impl MReg {
     }
 }
 impl SReg {
+    fn clone_from_reg(&mut self, src: &SReg) {
+        match (self, src) {
+            (SReg::C0(d), SReg::C0(s)) => counted(|| d.v.clone_from(&s.v)),
+            (SReg::C1(d), SReg::C1(s)) => counted(|| d.v.clone_from(&s.v)),
+            (SReg::C2(d), SReg::C2(s)) => counted(|| d.v.clone_from(&s.v)),
+            (SReg::C3(d), SReg::C3(s)) => counted(|| d.v.clone_from(&s.v)),
+            (SReg::C4(d), SReg::C4(s)) => counted(|| d.v.clone_from(&s.v)),
+            (SReg::C8(d), SReg::C8(s)) => counted(|| d.v.clone_from(&s.v)),
+            _ => unreachable!(),
+        }
+    }
     fn cap(&self) -> usize { with_sr!(self, m => m.capacity()) }
     fn intact(&self) -> bool {
         match self {
@@ -450,6 +473,11 @@ fn disj<const N: usize, const J: usize>(m: &mut Map<Key, Val, N>, ks: [&Cls; J],
         if ok { o.push(id); o.push(dat); } else { o.extend([9004, 0]); } } } }
 }
 
+// the library-provided Iterator methods must agree with stepping by next(): fold (count, sum, for_each ...) and last
+fn provided_ok(folded: usize, last: Option<u64>, rest: &[u64]) {
+    if folded != rest.len() { fault(format!("ITER_PROVIDED fold() visits {} items but next() yields {}", folded, rest.len())); }
+    if last != rest.last().copied() { fault(format!("ITER_PROVIDED last() = {:?} but stepping ends with {:?}", last, rest.last())); }
+}
 fn hint3(len: usize, sh: (usize, Option<usize>), o: &mut Out) {
     o.push(len as u64); o.push(sh.0 as u64); o.push(sh.1.map(|x| x as u64).unwrap_or(9998));
 }
@@ -464,6 +492,7 @@ fn iter_session<const N: usize>(m: &mut Map<Key, Val, N>, kind: u64, steps: u64,
                        o.push(slot_of_val(m, v as *const Val as usize)); r_pair(k, v, o); } } }
                fmt_into(format_args!("{:?}", it), o); fmt_into(format_args!("{:#?}", it), o);
                let rest: Vec<u64> = it.clone().map(|(_, v)| slot_of_val(m, v as *const Val as usize)).collect();
+               provided_ok(it.clone().fold(0usize, |a, _| a + 1), it.clone().last().map(|(_, v)| slot_of_val(m, v as *const Val as usize)), &rest);
                o.push(rest.len() as u64); o.extend(rest); o.push(counted(|| it.count()) as u64); }
         1 => { { let mut it = counted(|| m.iter_mut());
                  for j in 0..steps { hint3(it.len(), it.size_hint(), o);
@@ -479,6 +508,7 @@ fn iter_session<const N: usize>(m: &mut Map<Key, Val, N>, kind: u64, steps: u64,
                        o.push(slot_of_key(m, k as *const Key as usize)); r_key(k, o); } } }
                fmt_into(format_args!("{:?}", it), o); fmt_into(format_args!("{:#?}", it), o);
                let rest: Vec<u64> = it.clone().map(|k| slot_of_key(m, k as *const Key as usize)).collect();
+               provided_ok(it.clone().fold(0usize, |a, _| a + 1), it.clone().last().map(|k| slot_of_key(m, k as *const Key as usize)), &rest);
                o.push(rest.len() as u64); o.extend(rest); o.push(counted(|| it.count()) as u64); }
         3 => { let mut it = counted(|| m.values());
                for _ in 0..steps { hint3(it.len(), it.size_hint(), o);
@@ -486,6 +516,7 @@ fn iter_session<const N: usize>(m: &mut Map<Key, Val, N>, kind: u64, steps: u64,
                        o.push(slot_of_val(m, v as *const Val as usize)); r_val(v, o); } } }
                fmt_into(format_args!("{:?}", it), o); fmt_into(format_args!("{:#?}", it), o);
                let rest: Vec<u64> = it.clone().map(|v| slot_of_val(m, v as *const Val as usize)).collect();
+               provided_ok(it.clone().fold(0usize, |a, _| a + 1), it.clone().last().map(|v| slot_of_val(m, v as *const Val as usize)), &rest);
                o.push(rest.len() as u64); o.extend(rest); o.push(counted(|| it.count()) as u64); }
         _ => { { let mut it = counted(|| m.values_mut());
                  for j in 0..steps { hint3(it.len(), it.size_hint(), o);
@@ -677,6 +708,7 @@ fn set_op<const N: usize>(s: &mut Set<Key, N>, op: &[u64], o: &mut Out) {
                          let a = k as *const Key as usize; inside(s, a, mem::size_of::<Key>());
                          o.push(slot_of_skey(s, a).unwrap_or(9999)); r_key(k, o); } } }
                  let rest: Vec<u64> = it.clone().map(|k| slot_of_skey(s, k as *const Key as usize).unwrap_or(9999)).collect();
+                 provided_ok(it.clone().fold(0usize, |a, _| a + 1), it.clone().last().map(|k| slot_of_skey(s, k as *const Key as usize).unwrap_or(9999)), &rest);
                  o.push(rest.len() as u64); o.extend(rest); o.push(counted(|| it.count()) as u64); }
         141 => { let (take, fate) = (op[2], op[3]);
                  let old = mem::replace(s, Set::new());
@@ -862,7 +894,9 @@ fn target(op: &[u64]) -> Option<(bool, usize)> {
         43 if n == 4 && mr(op[1]) => Some((false, op[1] as usize)),
         50 if n == 7 && mr(op[1]) => Some((false, op[1] as usize)),
         51 if n >= 5 && mr(op[1]) => Some((false, op[1] as usize)),
-        60 | 66 if n == 3 && mr(op[1]) && mr(op[2]) => Some((false, op[2] as usize)),
+        60 | 66 | 67 if n == 3 && mr(op[1]) && mr(op[2]) => Some((false, op[2] as usize)),
+        68 if n == 2 && mr(op[1]) => Some((false, op[1] as usize)),
+        168 if n == 2 && sr(op[1]) => Some((true, op[1] as usize - 2)),
         61 if n == 3 && mr(op[1]) && mr(op[2]) => Some((false, op[1] as usize)),
         62 if n >= 4 && mr(op[1]) => Some((false, op[1] as usize)),
         64 if n == 3 && mr(op[1]) => Some((false, op[1] as usize)),
@@ -872,7 +906,7 @@ fn target(op: &[u64]) -> Option<(bool, usize)> {
         134 | 141 | 142 | 143 | 144 if n == 4 && sr(op[1]) => Some((true, op[1] as usize - 2)),
         135 if n >= 3 && sr(op[1]) => Some((true, op[1] as usize - 2)),
         140 if n == 3 && sr(op[1]) => Some((true, op[1] as usize - 2)),
-        160 | 166 if n == 3 && sr(op[1]) && sr(op[2]) => Some((true, op[2] as usize - 2)),
+        160 | 166 | 167 if n == 3 && sr(op[1]) && sr(op[2]) => Some((true, op[2] as usize - 2)),
         161 | 172 if n == 3 && sr(op[1]) && sr(op[2]) => Some((true, op[1] as usize - 2)),
         162 if n >= 4 && sr(op[1]) => Some((true, op[1] as usize - 2)),
         164 if n == 3 && sr(op[1]) => Some((true, op[1] as usize - 2)),
@@ -886,6 +920,18 @@ fn do_op(w: &mut World, op: &[u64], o: &mut Out) {
     match op[0] {
         60 => { let fresh = w.m[op[1] as usize].clone_reg();
                 let old = mem::replace(&mut w.m[op[2] as usize], fresh); drop(old); }
+        67 => { let (r, r2) = (op[1] as usize, op[2] as usize);
+                if r == r2 { let c = w.m[r].clone_reg(); w.m[r2].clone_from_reg(&c); drop(c); } // a.clone_from(&a) is not expressible; not generated
+                else { let (lo, hi) = w.m.split_at_mut(1);
+                       if r == 0 { hi[0].clone_from_reg(&lo[0]); } else { lo[0].clone_from_reg(&hi[0]); } } }
+        167 => { let (r, r2) = (op[1] as usize - 2, op[2] as usize - 2);
+                 if r == r2 { let c = w.s[r].clone_reg(); w.s[r2].clone_from_reg(&c); drop(c); }
+                 else { let (lo, hi) = w.s.split_at_mut(1);
+                        if r == 0 { hi[0].clone_from_reg(&lo[0]); } else { lo[0].clone_from_reg(&hi[0]); } } }
+        68 => { with_m!(&mut w.m[op[1] as usize], m => { fn dflt<const N: usize>(_m: &Map<Key, Val, N>) -> Map<Key, Val, N> { Map::default() }
+                    let fresh = dflt(m); let old = mem::replace(m, fresh); drop(old); }); }
+        168 => { with_s!(&mut w.s[op[1] as usize - 2], s => { fn dflt<const N: usize>(_s: &Set<Key, N>) -> Set<Key, N> { Set::default() }
+                    let fresh = dflt(s); let old = mem::replace(s, fresh); drop(old); }); }
         61 => { let (a, b) = (&w.m[op[1] as usize], &w.m[op[2] as usize]);
                 let r = with_mr!(a, x => with_mr!(b, y => counted(|| x == y))); o.push(r as u64);
                 // `!=` must be the negation of `==` (asked with honest, uncounted comparisons)
@@ -952,8 +998,8 @@ fn post(w: &World, t: (bool, usize), o: &mut Out) {
 fn step(w: &mut World, op: &[u64]) -> (Out, bool) {
     let mut out = Out::new();
     let t = match target(op) { Some(t) => t, None => return (vec![9], false) };
-    if op[0] == 60 && w.m[op[1] as usize].cap() != w.m[op[2] as usize].cap() { return (vec![9], false); }
-    if op[0] == 160 && w.s[op[1] as usize - 2].cap() != w.s[op[2] as usize - 2].cap() { return (vec![9], false); }
+    if (op[0] == 60 || op[0] == 67) && w.m[op[1] as usize].cap() != w.m[op[2] as usize].cap() { return (vec![9], false); }
+    if (op[0] == 160 || op[0] == 167) && w.s[op[1] as usize - 2].cap() != w.s[op[2] as usize - 2].cap() { return (vec![9], false); }
     with_ctx(|c| { c.drops.clear(); c.clones.clear(); c.in_call = true; });
     let mut body = Out::new();
     let res = catch_unwind(AssertUnwindSafe(|| do_op(w, op, &mut body)));
